@@ -1,23 +1,64 @@
 (* C10 — node usage always equals the sum of the workloads recorded on the node.
 
-   FULL STATEMENT (not proved in this generality):
-     forall history of create/remove/dissociate/realloc/replace/set-node calls, each with at most
-     one injected fault at any call, use_ok w0 -> use_ok (world after the history).
-   It is FALSE of the code as it is: C10_replace_refuted (a replace whose removal of the old workload
-   fails leaves old and new workload recorded on one allocation).  What is proved:
-     * for EVERY world and EVERY fault position: create (whole operation, every feasible plan, C10_create),
-       realloc (whole operation), the locked transaction of one workload of remove and of dissociate,
-       add-node keep the invariant;
-     * for every fault position on explicit scenario families: create again with usage <= capacity
-       (C10_create_scenarios, together with C12) and set-node (in C11.v);
-     * every fault address (method, target, ordinal) of the harness is one of the positions k
-       (C10_fault_addresses).
-   use_ok w := forall plugin record p of w, p_use p = sum of w_res over the workloads recorded on p_node p. *)
+   MAIN THEOREM (C10_history): for EVERY history of add-pod / add-node / remove-node / set-node / create /
+   remove / dissociate / realloc operations, each with at most one injected fault at ANY faultable call of the
+   operation (store, resource plugin, engine, WAL, lock; [k : option nat] is the index of the failing call), from
+   EVERY world satisfying Inv: Inv holds after the history, in particular (C10_history_usage)
+       for every plugin record p:  p_use p = sum of w_res over the workloads recorded on p_node p.
+   Inv w := wf w (distinct ids; a recorded workload's node has a plugin record; it has a container)
+            /\ use_ok w /\ one plugin record per node name /\ every node record is available.
+   Step validity (valid_step, the only hypotheses on the steps):
+     * create: the plan handed to create is a strategy output for the world of that moment (distinct node names,
+       the nodes exist, each node's plugin can fit its count) and the operation index is fresh;
+     * remove: force, or the engine does not refuse to remove running containers (a natural refusal PLUS an
+       injected fault on the compensation is a second, independent failure);
+     * replace and lambda are NOT steps of the theorem.  For replace the statement is FALSE of the code as it is:
+       C10_replace_refuted (a replace whose removal of the old workload fails leaves old and new workload
+       recorded on one allocation; known finding E1-C10-replace-remove-old-unchecked).
+   The per-operation theorems below are the same statement one operation at a time (C10_step); C10_create_capacity
+   adds usage <= capacity for create; C10_fault_addresses: every fault address (method, target, ordinal) of the
+   harness is one of the positions k.  Operations of a history run one after the other; concurrency: see C10.json. *)
 From Coq Require Import List Bool Arith ZArith.
 From Verif Require Import Base.Effects Calcium.World Calcium.Ops Calcium.Run Calcium.EffectsProofs
   Calcium.OpsProofs Calcium.OpsProofs2 Calcium.InvProofs Calcium.Sweeps Calcium.DeployProofs Calcium.DeployProofs2
-  Calcium.CreateProofs Calcium.CreateProofs2 Calcium.NodeProofs Calcium.CapProofs Calcium.Examples.
+  Calcium.CreateProofs Calcium.CreateProofs2 Calcium.NodeProofs Calcium.CapProofs Calcium.HistoryProofs Calcium.Examples.
 
+(* ---- the theorem over histories ---- *)
+Theorem C10_history : forall (h : list (op * option nat)) w, Inv w -> valid_hist w h -> Inv (run_hist w h).
+Proof. exact history_keeps_Inv. Qed.
+Print Assumptions C10_history.
+
+Theorem C10_history_usage : forall (h : list (op * option nat)) w, Inv w -> valid_hist w h -> use_ok (run_hist w h).
+Proof. exact history_keeps_usage. Qed.
+Print Assumptions C10_history_usage.
+
+(* one step: any operation but replace/lambda, any fault position *)
+Theorem C10_step : forall w o k, Inv w -> valid_step w o -> Inv (step_world w (o, k)).
+Proof. exact step_keeps_Inv. Qed.
+Print Assumptions C10_step.
+
+(* whole RemoveWorkload / DissociateWorkload (all nodes, all ids, all messages), every world, every fault position *)
+Theorem C10_remove_op : forall emit idl force w k, Inv w ->
+  (force = true \/ strict_remove w = false) ->
+  Inv (after (remove emit idl force) w k).
+Proof. exact remove_keeps_Inv. Qed.
+Print Assumptions C10_remove_op.
+
+Theorem C10_dissociate_op : forall idl w k, Inv w -> Inv (after (dissociate idl) w k).
+Proof. exact dissociate_keeps_Inv. Qed.
+Print Assumptions C10_dissociate_op.
+
+(* AddNode in EVERY world (also when the store refuses the node and the plugin's clean-up is the failing call) *)
+Theorem C10_add_node_op : forall n p cap w k, Inv w -> Inv (after (add_node n p cap) w k).
+Proof. exact add_node_keeps_Inv. Qed.
+Print Assumptions C10_add_node_op.
+
+(* the invariant and the step hypotheses are satisfiable: a concrete world and a concrete history with faults *)
+Theorem C10_history_instance : Inv busy3v /\ valid_hist busy3v history_example /\ Inv (run_hist busy3v history_example).
+Proof. exact (conj busy3_Inv (conj history_example_valid history_example_Inv)). Qed.
+Print Assumptions C10_history_instance.
+
+(* ---- the blocks, as in round 1 ---- *)
 Theorem C10_realloc : forall id req w k, wf w -> use_ok w ->
   use_ok (fst (fst (crunk (realloc id req) w k))).
 Proof. exact realloc_keeps_usage. Qed.
